@@ -245,9 +245,32 @@ def stub_flatten(interp, b):
     raise Unsupported("_nested_dicts_to_dotted_keys on this value")
 
 
+class StripPrefix(Contract):
+    """_strip_prefix over an arbitrary key (z3 string): the name a state point key is reported under -- in detected schemas, export paths and
+    linked views -- is the indexed key 'sp.<name>' without its first three characters, whatever <name> contains (also 'sp.' again: a nested
+    key under a parent whose name ends in 'sp')"""
+    target = f"{SCH}._strip_prefix"
+    properties = ("C16", "C17", "C18")
+    prefer_cvc5 = True
+
+    def setup(self, interp, case):
+        from pyvc.theory_str import SStr
+        name = z3.String("state_point_key_name")
+        return [SStr(z3.Concat(z3.StringVal("sp."), name))], {}, {"name": name}
+
+    def post(self, interp, case, pre, outcome):
+        from pyvc.theory_str import SStr
+        ex = interp.ex
+        if outcome[0] != "return":
+            ex.oblige(self.oname("raises:nothing"), False, note=repr(outcome[1]))
+            return
+        r = outcome[1]
+        ex.oblige(self.oname("ensures:sp.<name>_is_reported_as_<name>_for_every_name"), r.e == pre["name"] if isinstance(r, SStr) else z3.BoolVal(False), note=repr(r)[:100])
+
+
 class BuildJobStatepointIndex(Contract):
     target = f"{SCH}._build_job_statepoint_index"
-    properties = ("C18",)
+    properties = ("C17", "C18")
     ctx_class = SchemaCtx
     inline = (f"{SCH}._strip_prefix",)
     callees = {"signac._utility._nested_dicts_to_dotted_keys": stub_flatten}
@@ -342,4 +365,4 @@ class BuildJobStatepointIndex(Contract):
             return
 
 
-CONTRACTS = [BuildJobStatepointIndex()]
+CONTRACTS = [StripPrefix(), BuildJobStatepointIndex()]
